@@ -191,16 +191,18 @@ Proof. unfold pfx_ok, unknown_prefix. destruct p as [q|]; [|reflexivity]. destru
 
 (* without class (j) the attribute delb finds is the one with that expanded name *)
 Lemma delb_attr_is_ref m p l c :
-  is_tagnode c = true -> attr_j m p c = false -> pfx_ok m p = true ->
+  is_tagnode c = true -> attr_j m p l c = false -> pfx_ok m p = true ->
   delb_attr (ipayload (snd c)) (attr_ns m p) l = get_attr (res_ns m p) l (tag_attrs c).
 Proof.
-  intros Ht Hj Hp. unfold delb_attr, attr_ns, res_ns, tag_attrs, attr_j, pfx_ok in *.
-  destruct p as [q|]; [|reflexivity].
-  destruct (ns_get m q) as [ns|] eqn:E; [|discriminate]. cbn [opt_default].
-  destruct (null ns) eqn:Hn.
-  - destruct ns; [reflexivity|discriminate].
-  - cbn [orb]. destruct (in_scope_default (ipayload (snd c))) as [d|]; [|reflexivity].
-    rewrite Ht in Hj. cbn in Hj. rewrite Hj. reflexivity.
+  intros Ht Hj Hp. unfold delb_attr, attr_j, tag_attrs in *.
+  assert (E : exists ns, (match p with Some q => ns_get m q | None => Some [] end) = Some ns /\ attr_ns m p = ns /\ res_ns m p = ns).
+  { unfold attr_ns, res_ns, pfx_ok in *. destruct p as [q|]; [|eauto]. destruct (ns_get m q) as [ns|]; [eauto|discriminate]. }
+  destruct E as (ns & E & -> & ->). rewrite E in Hj.
+  destruct (in_scope_default (ipayload (snd c))) as [d|]; [|reflexivity].
+  rewrite Ht in Hj. cbn [andb] in Hj. apply orb_false_elim in Hj as [H1 H2].
+  destruct (null ns) eqn:Hn; cbn [negb andb] in *.
+  - destruct ns; [|discriminate]. destruct (negb (null d)); cbn [andb]; [|reflexivity]. rewrite H2. reflexivity.
+  - rewrite H1. reflexivity.
 Qed.
 
 Lemma ty_attr_inv e : ty_of e = Some TAttr -> exists p l, e = AttributeValue p l.
@@ -215,7 +217,7 @@ Proof.
 Qed.
 
 Lemma attr_value_eval m p a c pos size :
-  attr_j m p c = false -> bound m (AttributeValue p a) = true ->
+  attr_j m p a c = false -> bound m (AttributeValue p a) = true ->
   d_expr m (AttributeValue p a) c pos size = Ok (match attr_of m p a c with Some v => PStr v | None => PNone end) /\
   r_expr m (AttributeValue p a) c pos size = Some (RAttrs (match attr_of m p a c with Some v => [v] | None => [] end)).
 Proof.
